@@ -258,4 +258,12 @@ theorem nodup_map_erase {α β} [DecidableEq α] (f : α → β) (l : List α) (
     (hn : (l.map f).Nodup) : ((l.erase e).map f).Nodup :=
   (List.erase_sublist.map f).nodup hn
 
+theorem length_filter_bool_split {α} (f : α → Bool) (l : List α) :
+    (l.filter (fun x => f x == true)).length + (l.filter (fun x => f x == false)).length = l.length := by
+  induction l with
+  | nil => rfl
+  | cons a r ih =>
+    cases h : f a <;> simp only [List.filter_cons, h, beq_iff_eq, Bool.false_eq_true, Bool.true_eq_false,
+      if_true, if_false, List.length_cons] <;> omega
+
 end Topsim
